@@ -513,6 +513,24 @@ def fam_refcount(rng):
     return lines
 
 
+def fam_refcount_mw(rng):
+    """C13 (mutex half) with conditional critical sections: the reference-count pattern where a holder's last use of
+    the mutex is an nsync_mu_wait that TIMES OUT (the call returns holding the lock and leaves MU_WAITING / MU_CONDITION
+    behind with an empty queue: its unlock takes the slow path with a late release), while the other owners only ever
+    poll nsync_mu_trylock: one of them can be the last user inside the releaser's slow path and reclaims the memory
+    as soon as its own unlock returns."""
+    nf = rng.choice([2, 2, 3])
+    lines = ["sem %s" % rng.choice(["counting", "binary"]), "objs mu=1 var=2", "var x0 %d mu0" % nf, "var x1 0 mu0", "cond c0 eq x1 1", "cond c1 ge x1 5"]
+    nmw = rng.choice([1, 1, 2]) if nf > 2 else 1
+    for i in range(nf):
+        if i < nmw:
+            ops = ["yield"] * rng.randrange(0, 2) + ["lock mu0", "muwait mu0 %s %s" % (rng.choice(["c0", "c1"]), rng.choice(["p200", "p1000", "m5", "z"])), "unref_held mu0 x0"]
+        else:
+            ops = ["yield"] * rng.randrange(0, 3) + ["trylock_spin mu0", "unref_held mu0 x0"]
+        lines.append("fiber " + " ; ".join(ops))
+    return lines
+
+
 def fam_alloc_fail(rng):
     """C19: small note trees and counters built by the fibers themselves; the k-th allocation performed by a
     CONSTRUCTOR fails (exec key failmalloc=k counts every malloc of the library, so the scenario performs no
@@ -686,7 +704,7 @@ try:
 except Exception:
     _gm = None
 
-FAMILIES = {"alloc_fail": fam_alloc_fail, "note": _gn.fam_note, "note_f4": _gn.fam_note_f4, "note_f4b": _gn.fam_note_f4b, "note_wc": _gn.fam_note_wc, "note_f7": _gn.fam_note_f7, "refcount": fam_refcount, "starve": fam_starve, "cv_rsignal": fam_cv_rsignal, "ctr": fam_ctr, "once": fam_once, "futex": fam_futex,"core": fam_core, "cv": fam_cv, "cv_raw": fam_cv_raw, "muwait": fam_muwait, "debug": fam_debug,
+FAMILIES = {"alloc_fail": fam_alloc_fail, "note": _gn.fam_note, "note_f4": _gn.fam_note_f4, "note_f4b": _gn.fam_note_f4b, "note_wc": _gn.fam_note_wc, "note_f7": _gn.fam_note_f7, "refcount": fam_refcount, "refcount_mw": fam_refcount_mw, "starve": fam_starve, "cv_rsignal": fam_cv_rsignal, "ctr": fam_ctr, "once": fam_once, "futex": fam_futex,"core": fam_core, "cv": fam_cv, "cv_raw": fam_cv_raw, "muwait": fam_muwait, "debug": fam_debug,
             "waitn_cv": fam_waitn_cv, "waitn_rep": fam_waitn_rep, "waitn_atomic": fam_waitn_atomic, "starve_cv": fam_starve_cv, "late_looker": fam_late_looker, "debug_cond": fam_debug_cond, "nw_release": fam_nw_release, "longwait_timeout": fam_longwait_timeout, "starve_mix": fam_starve_mix, "muc_cv": fam_muc_cv, "once_nested": fam_once_nested, "ctr_big": fam_ctr_big, "cancel_children": fam_cancel_children, "cv_rwr": fam_cv_rwr, "muc_eqmix": fam_muc_eqmix, "timed_contended": fam_timed_contended, "waitn_mon": fam_waitn_mon, "cancel_only": fam_cancel_only, "mixed": fam_mixed}
 
 
